@@ -154,7 +154,7 @@ def run(prog: Program, res: Result) -> None:
         res.add(Finding(P, "C11.R1-gather-exactly-once", "helpers.get_pool_results::loop", gp.loc(), f"get_pool_results: {why}"))
     # executor factory: thread -> ThreadPoolExecutor else ProcessPoolExecutor, both with n_workers
     ge = prog.func(f"{PKG}.helpers.get_pool_executor")
-    names = {dotted(n.func) for n in own_nodes(ge) if isinstance(n, ast.Call)}
+    names = {dotted(n) for n in own_nodes(ge) if isinstance(n, ast.Attribute)}
     oke = {"parallel.ThreadPoolExecutor", "parallel.ProcessPoolExecutor"} <= names
     res.ob(oke, f"{ge.loc()} get_pool_executor returns a Thread/ProcessPoolExecutor", "get_pool_executor")
     if not oke:
